@@ -761,6 +761,17 @@ def _r5(ctx, pkg):
                     wrong.append("the selection has a further condition: " + "; ".join(show(x)[:60] for x in tests if x not in kind_tests))
                 elif pairs and src and not tests:
                     wrong.append("no selection by the variable's type")
+                # the pairs come from a second, per-kind table `self.T[VariableType.<kind>]` kept next to the registry
+                idx = [x for x in walk(v) if isinstance(x, tuple) and len(x) == 3 and x[0] == "sub" and x[1][0] == "attr" and x[1][1] == SELF and x[1][2] != "_symbols"
+                       and x[2][0] == "attr" and x[2][1] == ("global", "VariableType")]
+                if pairs and not src and not tests and len(idx) == 1:
+                    T, used = idx[0][1][2], idx[0][2][2]
+                    if used != kind:
+                        wrong.append(f"reads the `{used}` entries of self.{T}")
+                    else:
+                        why = _stale_index(pkg, T)
+                        if why:
+                            wrong.append(why)
         msg = f"Component.{prop} maps symbol -> value for the symbols of kind `{kind}`"
         if good:
             ctx.ok("R5", f"Component.{prop}", (CF, f.lineno), msg)
@@ -768,6 +779,37 @@ def _r5(ctx, pkg):
             ctx.bad("R5", f"Component.{prop}", (CF, f.lineno), msg, found="; ".join(wrong))
         else:
             ctx.unrec("R5", f"Component.{prop}", (CF, f.lineno), f"cannot see which registered variables Component.{prop} returns: {'; '.join(seen_) or 'no return'}")
+
+
+def _stale_index(pkg, T):
+    """Component keeps a per-kind table self.T next to the registry self._symbols.  `register` may OVERWRITE a name (force_overwrite)
+    with a variable of another kind: unless the name's previous entry is removed from T, the symbol stays listed under its old kind as
+    well and is declared twice (as parameter and as derived quantity).  -> the positive evidence (register writes T and never removes
+    from it) as a sentence, or None when register does remove entries / is not understood."""
+    comp = pkg.cls("Component")
+    reg = comp.methods.get("register")
+    if reg is None:
+        return None
+    scope, todo = [], [reg]
+    while todo:
+        f = todo.pop()
+        if any(f is g for g in scope):
+            continue
+        scope.append(f)
+        for c in ast.walk(f):
+            if isinstance(c, ast.Call) and isinstance(c.func, ast.Attribute) and isinstance(c.func.value, ast.Name) and c.func.value.id == "self" and c.func.attr in comp.methods \
+                    and c.func.attr != "register":
+                todo.append(comp.methods[c.func.attr])
+    on_T = lambda e: any(isinstance(x, ast.Attribute) and x.attr == T and isinstance(x.value, ast.Name) and x.value.id == "self" for x in ast.walk(e))
+    writes = [n for f in scope for n in ast.walk(f) if isinstance(n, ast.Subscript) and isinstance(n.ctx, ast.Store) and on_T(n.value)]
+    removes = [n for f in scope for n in ast.walk(f) if (isinstance(n, ast.Delete) and any(on_T(t) for t in n.targets))
+               or (isinstance(n, ast.Call) and isinstance(n.func, ast.Attribute) and n.func.attr in ("pop", "popitem", "clear", "discard", "remove") and on_T(n.func.value))
+               or (isinstance(n, ast.Assign) and any(isinstance(t, ast.Attribute) and t.attr == T for t in n.targets))]
+    overwrites = any(isinstance(n, ast.arg) and n.arg == "force_overwrite" for n in ast.walk(reg))
+    if writes and not removes and overwrites:
+        return (f"the per-kind table self.{T} is filled by register() (line {writes[0].lineno}) but an overwrite with force_overwrite never removes the name's previous entry: a symbol "
+                "re-registered with another kind stays listed under the old kind too and is declared twice")
+    return None
 
 
 def _generator_as_expression(fn):
